@@ -208,7 +208,13 @@ def run_history (case, rep):
       size = op[2]
       in_port = op[1]
       if k == "miss":
-        dst = bytes.fromhex("0200000000%02x" % (0x10 + (uid % 8)))
+        # (to a station, to everybody, to a group - and to the addresses a
+        #  bridge keeps to itself: spanning tree, LLDP, 802.1X.  What misses
+        #  the table is announced the same way whoever it is for)
+        dst = [bytes.fromhex(x) for x in (
+          "020000000010", "020000000011", "ffffffffffff", "0180c2000000",
+          "0180c200000e", "01005e000001", "0180c2000003", "020000000017",
+          "012320000001", "0180c200000f", "020000000012")][uid % 11]
         limit = miss_len; reason = 0
       else:
         dst = CTRL_DST[op[3]]; limit = CTRL_MAXLEN[op[3]]; reason = 1
